@@ -239,7 +239,9 @@ def corpus_lines(pid):
         for fn in sorted(os.listdir(d)):
             if fn.endswith(".ops"):
                 out.append("# case corpus:%s" % fn)
-                out += [l.rstrip("\n") for l in open(os.path.join(d, fn)) if l.strip() and not l.startswith("#")]
+                # comment lines are dropped, except the `# case` headers that reset the stream state
+                out += [l.rstrip("\n") for l in open(os.path.join(d, fn))
+                        if l.strip() and (not l.startswith("#") or l.startswith("# case"))]
     return out
 
 
